@@ -90,7 +90,13 @@ RULE = (
     "rows (all 15 mask patterns), every selected root; the extensible and the inextensible Marko-Siggia distance at the "
     "same 18 forces for 4 parameter sets (elastic shift Lc F/St); efjc_distance / twlc_distance with the force exactly "
     "on, one ulp from, 1e-9 around and well inside either side of the coth guard 2 F Lp/kT = 500 and of the critical "
-    "force Fc) "
+    "force Fc, each vector in ascending, descending and interleaved order; densely sampled data at the default "
+    "parameters for everything that goes through the interpolating inversion (twlc_force, twlc_distance with its round "
+    "trip, Model.invert(interpolate=True) of every solver-free constructor, bare and as an offset model): 6 spread "
+    "points plus runs of 2-5 points closer together than the 0.01 knot spacing just below the largest, just above the "
+    "smallest and around an interior point, and evenly sampled ramps of 41 points 3 fN apart starting at 0.5, 5 and "
+    "25 pN; the anchored private efjc_solve_force asked directly at the ssDNA defaults and with each of its parameters "
+    "0 and -1) "
     "+ seeded random cases: (v) arrays of 1-12 cubics of stream (a) put to calc_cubic_root in ONE call (rows of both "
     "branches; compared with the masked-array model and with the same rows asked for alone), (e) the elastic shift at "
     "1-8 forces for parameters from the box, (s) sessions as above with 3-8 queries of random kind and order on vectors of 4-24 "
@@ -120,7 +126,12 @@ RULE = (
     "generic constructors, equal or different names) that are ALL built before each DNA model is asked for its "
     "defaults and evaluated at them; (d) a malformed stream: non-positive or missing parameters, 2-D "
     "independent, incompatible composites, interpolation with infinite limits, selected_root=3, forces <= 0, "
-    "distances >= Lc, NaN, empty input, a non-positive parameter in ONE part of a composite / offset / inverted model. Non-trivial: the implementation returned at least one finite number "
+    "distances >= Lc, NaN, empty input, a non-positive parameter in ONE part of a composite / offset / inverted model; "
+    "(w) densely sampled curves as in the small scope with parameters from the box (4-8 spread points plus the runs of "
+    "close points) for twlc_force / twlc_distance and for Model.invert(interpolate=True) of a constructor, its offset "
+    "model, constructor + offset model and sums; (w') efjc_solve_force directly on 1-5 distances of the published curve "
+    "(15% with one non-positive parameter: ValueError). ORDER: every generated vector of forces / distances is handed "
+    "over ascending (35%), descending (30%) or shuffled (35%); comparison and oracle are point-wise. Non-trivial: the implementation returned at least one finite number "
     "(chain / cubic / dna cases) or a parameter list (names cases); every case of the malformed stream counts "
     "(error, nan/inf or number). How many compared values were inside / outside the model's error bound is "
     "reported separately (values_compared_within_model_error_bound / values_dropped_bound_undetermined)."
@@ -145,7 +156,7 @@ ASSUMPTIONS = [
     "the spline variant of Model.invert() uses a fixed knot spacing of 0.01 in the parent's independent variable; when a "
     "force model is inverted (knots in um) it is only generated for data spanning >= 1 um (>= 100 knots): coarser grids "
     "are inaccurate by construction (seen: 1.3e-3 relative with 8 knots) and say nothing about the property",
-    "for the same reason sessions (vectors of 4-10 values; the spline is only used for more than 3 values strictly inside "
+    "for the same reason sessions and inversion cases (the spline is only used for more than 3 values strictly inside "
     "the data range) hand a force model to the spline variant only when its force changes by at most 25% from one knot "
     "to the next at every generated point: close to the contour length of a short tether the 0.01 um grid is too coarse "
     "(seen: invert(wlc_marko_siggia_force, interpolate=True), Lc ~ 2 um, answers 1.9478 um for 61.0 pN, where the model "
@@ -657,6 +668,32 @@ def cubic_solver():
     return fn, how
 
 
+SOLVE_PATH = ("lumicks.pylake.fitting.detail.model_implementation", ("efjc_solve_force",))
+_PRIVATE = {}
+
+
+def private_fn(name):
+    """an anchored private function that no public constructor calls (efjc_solve_force: the public efjc_force is
+    Model.invert() of efjc_distance), by its known module and name; None when it is not there (then the observation is
+    "?", see the note on calc_cubic_root above: nothing is compared and nothing is asserted)"""
+    if name not in _PRIVATE:
+        fn = None
+        if name in SOLVE_PATH[1]:
+            try:
+                import importlib
+
+                fn = getattr(importlib.import_module(SOLVE_PATH[0]), name)
+            except (ImportError, AttributeError):
+                fn = None
+        if _is_function(fn):
+            # only the calling convention the anchor has: (d, Lp, Lc, St, kT) by position
+            co = fn.__code__
+            if list(co.co_varnames[:co.co_argcount])[1:5] != A4 or co.co_argcount != 5:
+                fn = None
+        _PRIVATE[name] = fn if _is_function(fn) else None
+    return _PRIVATE[name]
+
+
 def run_case(case):
     """returns (answers, ops): the implementation's observables and the protocol lines asking the model the
     same questions (ops may quote earlier answers of the implementation: round trips run on ITS values)"""
@@ -714,6 +751,21 @@ def run_case(case):
                     except Exception as ex:  # noqa: BLE001
                         alone.append(errname(ex))
             return [whole, "|".join(alone)], [line, "c12.skip"]
+        if op == "solve":
+            # the anchored private inversion efjc_solve_force(d, Lp, Lc, St, kT), asked directly (no public constructor
+            # is built on it); the model is asked for the public efjc_force = inverse of efjc_distance on (0, inf)
+            e = ["b", "efjc_force", "m"]
+            params = dict(zip(p_names(e), case["args"]))
+            ops = [eval_op(e, params, case["xs"])]
+            fn = private_fn(case["fn"])
+            if fn is None:
+                return ["?"], ops
+            with np.errstate(all="ignore"):
+                try:
+                    r = show(np.atleast_1d(np.asarray(fn(np.array(case["xs"], dtype=float), *case["args"]), dtype=float)))
+                except Exception as ex:  # noqa: BLE001
+                    r = errname(ex)
+            return [r], ops
         if op == "shift":
             # theorem ems_distance_is_shifted_ms on the implementation: the extensible and the inextensible
             # Marko-Siggia distance at the same forces and parameters (two public constructors, two cubics)
@@ -1027,6 +1079,17 @@ def oracle(case, ia):
                     return (f"cubic-vector: entry {i} of calc_cubic_root on {len(rows)} rows is {y}, the same row alone gives {ya} "
                             f"(row {row}, selected_root={k})")
         return None
+    if op == "solve":
+        if ia[0] == "?":
+            return None
+        if any(v <= 0 for v in case["args"]):
+            return None if ia[0] == "ValueError" else f"error-contract: expected ValueError, {case['fn']} answered {ia[0][:80]}"
+        got = dec_vals(ia[0])
+        if got is None:
+            return f"evaluation: {case['fn']} on valid input raised {ia[0][:60]}"
+        if len(got) != len(case["xs"]):
+            return f"shape: {len(case['xs'])} points in, {len(got)} out"
+        return solver_clause("efjc_force", case["args"], case["xs"], got)
     if op == "shift":
         Lp, Lc, St, kT = case["args"]
         ems, ms = dec_vals(ia[0]), dec_vals(ia[1])
@@ -1436,7 +1499,7 @@ def shrink(case):
         rows = case["rows"]
         for i in range(len(rows)):
             yield dict(case, rows=rows[:i] + rows[i + 1:])
-    if case["op"] == "shift" and len(case["xs"]) > 1:
+    if case["op"] in ("shift", "solve") and len(case["xs"]) > 1:
         for x in case["xs"]:
             yield dict(case, xs=[x])
     if case["op"] == "cubic" and len(case["ks"]) > 1:
@@ -1510,6 +1573,57 @@ def draw_params(rng, e, default_only=False):
     return params
 
 
+SPLINE_DX = 0.01  # knot spacing of invert_function_interpolation, in the variable the inversion solves for
+
+
+def reorder(rng, xs):
+    """the order in which the points of a vector are handed over: as generated (ascending: a pulling curve), descending
+    (a retraction curve) or unordered (pooled / shuffled data).  A model evaluates its equation point by point, so every
+    answer belongs to ITS input whatever the neighbours are; the comparison and the oracle are point-wise"""
+    xs = list(xs)
+    if len(xs) < 2:
+        return xs
+    t = rng.random()
+    if t < 0.35:
+        return xs
+    if t < 0.65:
+        return xs[::-1]
+    rng.shuffle(xs)
+    return xs
+
+
+def densify(rng, xs, dx=SPLINE_DX):
+    """sampling the way measured curves have it: runs of 2-5 points that are closer to each other than the knot spacing
+    `dx` of the interpolating inversion (a quarter of it up to twice it), just below the largest point, just above the
+    smallest one and around one interior point.  Every new point lies between existing ones, so the vector stays inside
+    whatever range the existing points are in"""
+    xs = list(xs)
+    if len(xs) < 2:
+        return xs
+    lo, hi = min(xs), max(xs)
+    if not hi - lo > 4.0 * dx:
+        return xs
+    out = list(xs)
+    for where, pr in (("top", 0.8), ("bottom", 0.5), ("inside", 0.5)):
+        if not rng.chance(pr):
+            continue
+        w = dx * rng.choice([0.25, 0.5, 1.0, 1.0, 2.0])
+        m = rng.randint(2, 5)
+        if where == "top":
+            out += [hi - w * rng.random() for _ in range(m)]
+        elif where == "bottom":
+            out += [lo + w * rng.random() for _ in range(m)]
+        else:
+            c = rng.uniform(lo + 2.0 * dx, hi - 2.0 * dx)
+            out += [c + w * (rng.random() - 0.5) for _ in range(m)]
+    return sorted(out)
+
+
+def ramp(lo, step, n):
+    """a densely and evenly sampled stretch of a curve"""
+    return [lo + i * step for i in range(n)]
+
+
 def forces_for(rng, kind, a, n, boundary=True):
     lim = 0.8 * validity_limit(kind, a)
     out = []
@@ -1526,16 +1640,23 @@ def forces_for(rng, kind, a, n, boundary=True):
     return sorted(out)
 
 
-def base_inputs(rng, e, params, n):
-    """valid inputs of a base constructor: forces, or the distances of points on the published curve"""
+def base_inputs(rng, e, params, n, dense=False, order=True):
+    """valid inputs of a base constructor: forces, or the distances of points on the published curve; handed over in
+    ascending, descending or no particular order (`reorder`); dense: with runs of points that are closer together (in
+    force) than the knot spacing of the interpolating inversion (`densify`)"""
     kind = base_kind(e)
     a = args_of(e, params)
     Fs = forces_for(rng, kind, a, n)
+    if dense:
+        Fs = densify(rng, Fs)
     if KINDS[kind][2] == "f":
         if kind in CUBIC_KINDS:  # use forces that lie exactly on the curve's parametrisation
-            return [curve_point(kind, F, a)[0] for F in Fs]
-        return Fs
-    return [curve_point(kind, F, a)[1] for F in Fs]
+            out = [curve_point(kind, F, a)[0] for F in Fs]
+        else:
+            out = Fs
+    else:
+        out = [curve_point(kind, F, a)[1] for F in Fs]
+    return reorder(rng, out) if order else out
 
 
 FORCE_DEP = [k for k, v in KINDS.items() if v[2] == "d"]
@@ -1572,11 +1693,11 @@ def monotone_sample(rng, e, params, n):
     lf = [x for x in leaves(e) if not base_kind(x).endswith("offset")]
     if p_indep(e) == "f":
         lim = min([0.8 * validity_limit(base_kind(x), args_of(x, params)) for x in lf] or [100.0])
-        return sorted(rng.loguniform(0.05, lim) for _ in range(n))
+        return reorder(rng, sorted(rng.loguniform(0.05, lim) for _ in range(n)))
     # distances: stay below every contour length involved, in the range of a typical curve
     Lcs = [params[f"{x[2]}/Lc"] for x in lf] or [16.0]
     Lc = min(Lcs)
-    return sorted(Lc * rng.uniform(0.3, 0.97) for _ in range(n))
+    return reorder(rng, sorted(Lc * rng.uniform(0.3, 0.97) for _ in range(n)))
 
 
 def dna_step(sub, name, before):
@@ -1767,6 +1888,19 @@ def small_scope(rng, quick):
             xs = [0.5 * Fb, Fb * (1 - 1e-9), float(np.nextafter(Fb, 0.0)), Fb, float(np.nextafter(Fb, 1e9)), Fb * (1 + 1e-9),
                   min(1.5 * Fb, 0.8 * validity_limit(kind, args))]
         yield chain_case(e, dict(zip(p_names(e), args)), xs, "small-scope", True, boundary=kind)
+        # the same points as a retraction curve (descending) and in no particular order: the branch of every point is
+        # decided by ITS force
+        yield chain_case(e, dict(zip(p_names(e), args)), xs[::-1], "small-scope", True, boundary=kind)
+        yield chain_case(e, dict(zip(p_names(e), args)), xs[1::2] + xs[0::2][::-1],
+                         "small-scope", True, boundary=kind)
+    yield from dense_small_scope(r.fork("dense"))
+    # the anchored private efjc_solve_force at the ssDNA defaults, and its reaction to each non-positive parameter
+    yield solve_case(r.fork("solve"), "small-scope", default_only=True, n=6)
+    for j in range(4):
+        for v in (0.0, -1.0):
+            c = solve_case(r.fork(f"solvebad{j}{v}"), "small-scope", default_only=True, n=2)
+            c["args"][j] = v
+            yield dict(c, stream="malformed", valid=False)
     # calc_cubic_root on arrays, exhaustive: every vector of length 0..3 over a pool of two Cardano rows and two
     # trigonometric rows (every mask pattern of these lengths), all three selected roots
     pool = [[0.0, 1.0, 1.0], [-1.0, 1.0, -1.0], [0.0, -1.0, 0.0], [-7.0, 14.0, -8.0]]
@@ -1845,6 +1979,19 @@ def inv_limits(e0, p, xs0, interp):
     return lo, hi
 
 
+def knots_resolve(kind, a, xs):
+    """does the 0.01 um knot grid of the interpolating inversion resolve force model `kind` at the distances xs: the force
+    changes by at most a quarter from one knot to the next at every point (see ASSUMPTIONS)"""
+    for x in xs:
+        try:
+            f0, f1 = plain_forward(kind, a, x), plain_forward(kind, a, x + SPLINE_DX)
+        except ZeroDivisionError:
+            return False
+        if not (math.isfinite(f0) and math.isfinite(f1) and abs(f1 - f0) <= 0.25 * abs(f0)):
+            return False
+    return True
+
+
 INV_SHAPES = [  # (shape of the expression handed to Model.invert(), weight)
     ("plain", 0.25), ("add", 0.15), ("off", 0.25), ("off_add", 0.08), ("add_off", 0.08), ("off_off", 0.04),
     ("sum", 0.08), ("sum_off", 0.07),
@@ -1864,7 +2011,7 @@ def off_names(e):
 
 
 def inversion_case(sub, k, shape, interp, stream, default_only=False, shifts=None, k2=None, n=None, include_low=False,
-                   info=None, **kw):
+                   info=None, dense=False, ramp_at=None, **kw):
     """Model.invert() of a solver-free increasing expression around constructor k: the constructor itself, plus an
     offset model, wrapped in subtract_independent_offset (once, twice, inside or outside a composite), or the sum of
     two distance models.  The requested values are the ones the published relations assign to inputs of the property's
@@ -1901,9 +2048,21 @@ def inversion_case(sub, k, shape, interp, stream, default_only=False, shifts=Non
         xs_in = [u + max(-o, 0.0) for u in us]
     else:
         xs_in = [curve_point(k, F, a_list[0])[1] for F in Fs]
+    if ramp_at is not None:
+        # a densely and evenly sampled stretch of the curve (unit f only): `ramp_at` = (first force the equation sees,
+        # spacing, number of points); the forces handed to the model are these moved by the offset
+        xs_in = ramp(*ramp_at)
+    elif dense:
+        # runs of points closer to each other than the knot spacing of the spline, in the variable the inversion solves
+        # for (they lie between valid points of the range, so they are valid points of the range)
+        xs_in = densify(sub, xs_in)
     if interp and unit == "d" and max(xs_in) - min(xs_in) < 1.0:
         # the spline grid has a FIXED step of 0.01 in the independent variable of the parent (here: um);
         # with fewer than ~100 knots over the data the interpolant is coarse by construction (see ASSUMPTIONS)
+        interp = False
+    if interp and unit == "d" and not knots_resolve(k, a_list[0], xs_in):
+        # ... and where the force changes by more than a quarter from one knot to the next (close to the contour length
+        # of a short tether) it is coarse as well (see ASSUMPTIONS); such data goes to least squares
         interp = False
     ys = [0.0] * len(xs_in)
     lo, hi = -math.inf, math.inf
@@ -1922,14 +2081,88 @@ def inversion_case(sub, k, shape, interp, stream, default_only=False, shifts=Non
         lo2 = o + 0.04
     if info is not None:
         info.update(xs_in=list(xs_in), unit=unit)
-    return chain_case(["inv", inner, lo2, hi2, interp], p, ys, stream, True, **kw)
+    if dense or ramp_at is not None:
+        kw["dense"] = True
+    return chain_case(["inv", inner, lo2, hi2, interp], p, reorder(sub, ys), stream, True, **kw)
+
+
+# ------------------------------------------------------------------ densely sampled curves (interpolating inversion)
+
+
+def dense_base_case(sub, k, stream, default_only=False, n=None, ramp_at=None, **kw):
+    """twlc_force (built on the interpolating inversion) / twlc_distance (whose round trip goes through it) on a vector
+    with runs of points closer together, in force, than the knot spacing of the spline, or on an evenly sampled ramp"""
+    e = ["b", k, kw.pop("name", "m")]
+    p = draw_params(sub, e, default_only)
+    if ramp_at is not None:
+        a = args_of(e, p)
+        Fs = ramp(*ramp_at)
+        xs = reorder(sub, Fs if KINDS[k][2] == "f" else [curve_point(k, F, a)[1] for F in Fs])
+    else:
+        xs = base_inputs(sub, e, p, n or sub.randint(4, 8), dense=True)
+    return chain_case(e, p, xs, stream, True, dense=True, **kw)
+
+
+def dense_small_scope(r):
+    """default parameters: every constructor that goes through the interpolating inversion (twlc_force; twlc_distance for
+    the round trip; Model.invert(interpolate=True) of every solver-free constructor, bare and as an offset model) on a
+    vector with runs of close points at both ends of the data, and the ones that solve for a force also on evenly
+    sampled ramps (3 fN spacing, 41 points) that start at 0.5, 5 and 25 pN"""
+    for k in ("twlc_force", "twlc_distance"):
+        yield dense_base_case(r.fork("b" + k), k, "small-scope", default_only=True, n=6)
+        for F0 in (0.5, 5.0, 25.0):
+            yield dense_base_case(r.fork(f"ramp{k}{F0}"), k, "small-scope", default_only=True, ramp_at=(F0, 0.003, 41))
+    for k in INV_KINDS:
+        for shape, sh in (("plain", None), ("off", [0.05])):
+            c = inversion_case(r.fork(f"inv{k}{shape}"), k, shape, True, "small-scope", default_only=True, shifts=sh, n=6,
+                               dense=True)
+            if c is not None:
+                yield c
+        if KINDS[k][2] == "f":
+            for F0 in (0.5, 5.0, 25.0):
+                c = inversion_case(r.fork(f"ramp{k}{F0}"), k, "plain", True, "small-scope", default_only=True, n=2,
+                                   ramp_at=(F0, 0.003, 41))
+                if c is not None:
+                    yield c
+
+
+def dense_random(r, count):
+    for i in range(count):
+        sub = r.fork(i)
+        if sub.chance(0.35):
+            yield dense_base_case(sub, "twlc_force" if sub.chance(0.7) else "twlc_distance", "random",
+                                  name=sub.choice(["DNA", "m", "x1"]), subseed=i)
+            continue
+        k = sub.choice(INV_KINDS)
+        shape = sub.choice(["plain", "plain", "off", "add", "sum", "off_add"])
+        c = inversion_case(sub, k, shape, True, "random", k2=sub.choice(INV_KINDS_F), n=sub.randint(4, 8), dense=True,
+                           subseed=i)
+        if c is not None:
+            yield c
+
+
+# ------------------------------------------------------------------ the anchored private inversion efjc_solve_force
+
+
+def solve_case(sub, stream, default_only=False, n=None, bad=False, **kw):
+    """efjc_solve_force on the distances the published eFJC equation assigns to forces of the property's range
+    (parameters from the ssDNA box); bad: one of Lp, Lc, St, kT is zero or negative (ValueError is promised)"""
+    a = [draw_param(sub, "efjc_force", x, default_only) for x in A4]
+    Fs = forces_for(sub, "efjc_force", a, n or sub.randint(1, 5))
+    xs = reorder(sub, [P_efjc_d(F, *a) for F in Fs])
+    if bad:
+        j = sub.randint(0, 3)
+        a[j] = sub.choice([0.0, -1.0, -a[j]])
+    c = {"stream": "malformed" if bad else stream, "op": "solve", "fn": "efjc_solve_force", "args": [float(v) for v in a],
+         "xs": [float(x) for x in xs], "valid": not bad}
+    c.update(kw)
+    return c
 
 
 # ------------------------------------------------------------------ sessions: many queries to one model object
 
 SESSION_SHAPES = [("b", 0.6), ("off", 0.15), ("add", 0.1), ("inv", 0.15)]
 SESSION_KINDS = [k for k in sorted(KINDS) if not k.endswith("offset")]
-SPLINE_DX = 0.01  # knot spacing of invert_function_interpolation, in the parent's independent variable
 
 
 def in_box(kind, a, us):
@@ -1998,19 +2231,6 @@ def session_case(sub, k, shape, stream, default_only=False, n=None, nv=None, ste
         ys = c["xs"]
         vecs = [ys[j::nv] for j in range(nv)]
         e, p, p2 = c["expr"], c["params"], None
-        if e[4] and info["unit"] == "d":
-            # the spline of the interpolated variant has knots every 0.01 um of the inverted force model: where the
-            # force changes by more than a quarter from one knot to the next (close to the contour length of a short
-            # tether) the interpolant is coarse by construction (see ASSUMPTIONS); such data goes to least squares
-            a = args_of(e[1], p)
-            for x in info["xs_in"]:
-                try:
-                    f0, f1 = plain_forward(kind, a, x), plain_forward(kind, a, x + SPLINE_DX)
-                except ZeroDivisionError:
-                    f0 = f1 = float("nan")
-                if not (math.isfinite(f0) and math.isfinite(f1) and abs(f1 - f0) <= 0.25 * abs(f0)):
-                    e = e[:4] + [False]
-                    break
     else:
         b = ["b", k, name]
         unit = KINDS[kind][2]
@@ -2024,7 +2244,7 @@ def session_case(sub, k, shape, stream, default_only=False, n=None, nv=None, ste
         vecs_u = []
         for _ in range(nv):
             if two:  # a margin to the ends of the range: the same inputs have to be valid for the second parameter set
-                Fs = sorted(sub.loguniform(0.07, 0.7 * lim / 0.8) for _ in range(n))
+                Fs = reorder(sub, sorted(sub.loguniform(0.07, 0.7 * lim / 0.8) for _ in range(n)))
                 vecs_u.append(Fs if unit == "f" else [curve_point(kind, F, a)[1] for F in Fs])
             else:
                 vecs_u.append(base_inputs(sub, b, p, n))
@@ -2164,6 +2384,15 @@ def cases(tier, rng):
         if c is not None:
             yield c
 
+    # ---- (w) densely sampled curves through the interpolating inversion
+    yield from dense_random(rng.fork("c12-dense"), 150 if quick else 1500)
+
+    # ---- (w') the anchored private efjc_solve_force, asked directly
+    r = rng.fork("c12-solve")
+    for i in range(60 if quick else 600):
+        sub = r.fork(i)
+        yield solve_case(sub, "random", bad=sub.chance(0.15), subseed=i)
+
     # ---- (a'') calc_cubic_root on arrays whose rows take different branches
     r = rng.fork("c12-cubicvec")
     for i in range(300 if quick else 6000):
@@ -2177,7 +2406,7 @@ def cases(tier, rng):
     for i in range(300 if quick else 6000):
         sub = r.fork(i)
         args = [draw_param(sub, "ewlc_marko_siggia_distance", x) for x in A4]
-        xs = forces_for(sub, "wlc_marko_siggia_distance", [args[0], args[1], args[3]], sub.randint(1, 8))
+        xs = reorder(sub, forces_for(sub, "wlc_marko_siggia_distance", [args[0], args[1], args[3]], sub.randint(1, 8)))
         yield {"stream": "random", "op": "shift", "args": [float(t) for t in args], "xs": [float(x) for x in xs], "subseed": i}
 
     # ---- (c) DNA parametrisations
@@ -2190,7 +2419,7 @@ def cases(tier, rng):
         um = um0 if sub.chance(0.5) else sub.uniform(0.2, 0.7)
         temp = 24.53608821 if sub.chance(0.3) else sub.uniform(-5.0, 60.0)
         lim = 0.8 * (750.0 if "jc" in ctor else 1200.0)
-        xs = sorted(sub.loguniform(0.05, lim) for _ in range(sub.randint(1, 4)))
+        xs = reorder(sub, sorted(sub.loguniform(0.05, lim) for _ in range(sub.randint(1, 4))))
         yield {"stream": "random", "op": "dna", "ctor": ctor, "kbp": float(kbp), "um": float(um), "temp": float(temp),
                "xs": xs, "subseed": i}
 
@@ -2292,9 +2521,37 @@ def extra_coverage(results):
               "efjc_distance: argument exactly 500 or one ulp from it": 0,
               "twlc_distance: f < Fc": 0, "twlc_distance: f == Fc": 0, "twlc_distance: f > Fc": 0}
     vec = {"arrays": 0, "rows": 0, "arrays_with_both_branches": 0, "by_length": {}, "small_scope_mask_patterns": set()}
+    orders = {"ascending": 0, "descending": 0, "unordered": 0, "fewer than 2 distinct points": 0}
+    dense = {"cases": 0, "vectors_with_two_or_more_points_within_one_knot_spacing_below_the_maximum": 0,
+             "through_twlc_force_or_the_twlc_round_trip": 0, "through_Model.invert(interpolate=True)": 0}
+    private_solve = {"direct_observations": 0, "unreachable_observations": 0}
     for r in results:
         c = r["case"]
         kinds[c["op"]] = kinds.get(c["op"], 0) + 1
+        if c["op"] == "solve":
+            private_solve["unreachable_observations" if r["impl"][0] == "?" else "direct_observations"] += 1
+        if c["op"] in ("chain", "solve", "shift") and not c.get("ndim2"):
+            v = c["xs"]
+            if len(set(v)) < 2:
+                orders["fewer than 2 distinct points"] += 1
+            elif all(x <= y for x, y in zip(v, v[1:])):
+                orders["ascending"] += 1
+            elif all(x >= y for x, y in zip(v, v[1:])):
+                orders["descending"] += 1
+            else:
+                orders["unordered"] += 1
+        if c["op"] == "chain" and c.get("dense"):
+            dense["cases"] += 1
+            e_ = c["expr"]
+            dense["through_twlc_force_or_the_twlc_round_trip"] += e_[0] == "b"
+            dense["through_Model.invert(interpolate=True)"] += e_[0] == "inv" and bool(e_[4])
+            got_ = dec_vals(r["impl"][0]) if r["impl"] else None
+            # the variable the inversion solves for: the answer of an inversion, the input of twlc_distance
+            v = got_ if (e_[0] == "inv" or base_kind(e_) == "twlc_force") else c["xs"]
+            if v and all(math.isfinite(t) for t in v):
+                top = max(v)
+                dense["vectors_with_two_or_more_points_within_one_knot_spacing_below_the_maximum"] += sum(
+                    1 for t in v if top - SPLINE_DX < t < top) >= 2
         if c["op"] == "cubic" and "roots" in c and c["ks"] != [3]:
             ex = c["roots"]
             small_cubic["one real root" if len(ex) == 1 else "three distinct real roots" if len(set(ex)) == 3
@@ -2429,6 +2686,9 @@ def extra_coverage(results):
         "cases_through_scipy_solver": solver_cases,
         "generic_inversions_by_shape": inv_shapes,
         "dna_sessions": sessions,
+        "order_of_the_input_vector (chain / shift / solve cases)": orders,
+        "densely_sampled_curves": dense,
+        "private_efjc_solve_force": private_solve,
         "model_sessions": msess,
         "exhaustive": False,
         "exhaustive_note": "the small-scope stream enumerates all ordered pairs of the 12 constructors (x equal/different names x bare/offset) completely at default parameters; parameter values and forces are sampled",
